@@ -147,9 +147,9 @@ PROPS = {
     assumptions=["streams 0..k-1 of a Uni channel exist for the whole run (documented use)", "MAX_STREAMS >= 1"],
  ),
  "C07": dict(
-    level_text="Lean 4 proof, for every execution of model M8 (cancel requests at any point, concurrent sends, spurious polls): a stream whose keep-running flag was cleared is never left parked and un-notified once the cancel's wake call has finished, it ends at its first empty consume, yields only buffered events meanwhile, and a cancel touches no other stream's flag / waker / state; counterexample theorem for `untargeted streams keep being woken` on Uni channels (recorded finding). cancel_all_streams(): its unlocked walk over used_streams is a small machine on top of the bookkeeping model (Model/CancelAll.lean): with no listener created / removed meanwhile it tells exactly the listed streams to end, for every list length and MAX_STREAMS (c07_cancel_all_quiescent); interleaved with the removal of a lower-id listener it misses a live stream (c07_cancel_all_race_counterexample = known finding D11, exhibited on the real channels by `multi sub=cancelall`). Tied to the code by step-level replay; the scheduler decides `parked forever`.",
+    level_text="Lean 4 proof, for every execution of model M8 (cancel requests at any point, concurrent sends, spurious polls): a stream whose keep-running flag was cleared is never left parked and un-notified once the cancel's wake call has finished, it ends at its first empty consume, yields only buffered events meanwhile, and a cancel touches no other stream's flag / waker / state; counterexample theorem for `untargeted streams keep being woken` on Uni channels (recorded finding). cancel_all_streams(): its walk over used_streams is a small machine on top of the bookkeeping model. As REPAIRED in /repo (finding D11, fix 944df07: the walk holds streams_lock) - Model/CancelAllLock.lean: mutual exclusion on streams_lock is an inductive invariant of the walker + any number of threads creating / removing listeners, sending and polling, and FOR EVERY INTERLEAVING the streams the finished walk told to end are exactly the entries used_streams listed, up to the sentinel, at the instant the walker took the lock, each once, in order (c07_cancel_all_locked); the D11 schedule on the repaired walk ends with all three streams told to end (c07_d11_schedule_repaired). The PINNED unlocked walk stays as Model/CancelAll.lean: correct with no churn (c07_cancel_all_quiescent), misses a live stream when a lower-id listener is removed meanwhile (c07_cancel_all_race_counterexample). `multi sub=cancelall` searches the real channels for it on every run (corpus/C07). Tied to the code by step-level replay; the scheduler decides `parked forever`.",
     level_note="Theorem about model M8 under the hypothesis that different streams are driven by tasks with different wakers (TokRun); stream-id recycling is C10's bookkeeping theorem. Known finding: ending a proper subset of a Uni channel's streams starves the others.",
-    lean=["C07", "C07_CancelAll"],
+    lean=["C07", "C07_CancelAll", "C07_CancelAllLock"],
     scenarios=[dict(bin="uni", args=[f"kind={k}", "sub=cancel"], runs=500, model_name="M8 Wake", kinds=["cancelled_stream_never_ended", "untargeted_stream_starved", "buffered_event_dropped_at_end", "no_progress", "panic", "invented", "duplicate"]) for k in UNI_KINDS] +
               [dict(bin="multi", args=[f"kind={k}", "sub=reuse"], runs=300, model=False, model_name="(oracle only: a stream id handed out again while its previous owner's removal is finishing)", kinds=["uncancelled_stream_ended", "no_progress", "panic"]) for k in MULTI_KINDS] +
               [dict(bin="multi", args=[f"kind={k}", "sub=cancelall"], runs=400, model=False, model_name="(oracle only: cancel_all_streams racing with the removal of a listener, Multi channels)", kinds=["cancelled_stream_never_ended", "no_progress", "panic"]) for k in MULTI_KINDS],
